@@ -1213,7 +1213,7 @@ fn mutate(rng: &mut Rng, bytes: &[u8]) -> Vec<u8> {
 fn run(cfg: &Config, s: &mut Session) {
     let mut rng = Rng::new(cfg.seed);
     let t = cfg.thorough();
-    let scale = if t { 12 } else { 1 };
+    let scale = if t { 120 } else { 1 };
     let mut corpus: Vec<Vec<u8>> = vec![];
 
     // --- the confirmed defect's reproducer: 300 collinear on-curve points (run > 256)
